@@ -758,7 +758,10 @@ fn handle_backend_messages<R: TransportReceiverT>(
 
 					if let Some(mut range) = range {
 						// the range is exclusive so need to add one.
-						range.end += 1;
+						range.end = range
+							.end
+							.checked_add(1)
+							.ok_or_else(|| InvalidRequestId::NotPendingRequest(range.end.to_string()))?;
 						process_batch_response(&mut manager.lock(), batch, range)?;
 					} else if !got_notif {
 						return Err(EmptyBatchRequest.into());
